@@ -804,7 +804,7 @@ theorem consumer_error_flag_discipline (scan : List B → Option String) (p : Pa
 theorem generated_message_not_static (m : String) (hs : IsStatic m) : ¬ IsGenerated m := static_not_generated m hs
 
 /-- ★ regenerated from the current parse.c on every run: EVERY write to `->error` / `->flag` in the file, per function in source order.
-    These are the writes the model makes -- `delimError` (`error := generated`, `flag ||| GENERATED_ERROR`), the consumers' literals,
+    (writes to the two different fields of one function are listed `error` first: independent statements).  These are the writes the model makes -- `delimError` (`error := generated`, `flag ||| GENERATED_ERROR`), the consumers' literals,
     `eof` (`flag ||| DEAD`: OR, the bit set three lines earlier survives), `takeError` (`error := none`, `flag &&& ~GENERATED_ERROR`),
     `init`, `clone` (both copied).  Any other write (e.g. `flag = JANET_PARSER_DEAD`) changes this table and the obligation stops checking. -/
 theorem err_flag_source_sites : errFlagWrites = [
@@ -817,7 +817,7 @@ theorem err_flag_source_sites : errFlagWrites = [
   ("janet_parser_eof", ["flag|=DEAD"]),
   ("janet_parser_error", ["error=NULL", "flag&=~GENERATED_ERROR"]),
   ("janet_parser_init", ["error=NULL", "flag=0"]),
-  ("janet_parser_clone", ["flag=src->flag", "error=src->error"])] := by decide
+  ("janet_parser_clone", ["error=src->error", "flag=src->flag"])] := by decide
 
 -- non-vacuity: `(` then eof: the generated message is pending WITH the bit (flag = DEAD | GENERATED_ERROR); a bad escape: literal, bit clear;
 -- and the invariant is not trivially true: the state seed C11-7 produces (same message, flag = DEAD only) violates it
